@@ -66,7 +66,7 @@ func VerifC11_RoundTripSmall() {
 	es := c11Write(path, n)
 	r, err := OpenReader(path)
 	vsym.Assert(err == nil, "OpenReader failed")
-	switch vsym.IntRange("mode", 0, 3) {
+	switch vsym.IntRange("mode", 0, 4) {
 	case 0: // forward iteration
 		it := r.NewIterator()
 		i := 0
@@ -125,6 +125,15 @@ func VerifC11_RoundTripSmall() {
 			vsym.Assert(vsym.Not(any), "point lookup misses a written key")
 		}
 		_ = live
+	case 4: // Next on a fresh iterator positions on the first entry, then walks the table
+		it := r.NewIterator()
+		i := 0
+		for it.Next() {
+			vsym.Assert(i < n, "fresh-iterator Next loop yields too many entries")
+			c11Same(it, es[i])
+			i++
+		}
+		vsym.Assert(i == n, "fresh-iterator Next loop yields too few entries")
 	}
 	vsym.Reach("done")
 }
